@@ -170,7 +170,14 @@ func (g *gen) nearMisses(p []byte, allBits bool) [][]byte {
 	}
 	out = append(out, append(append([]byte{}, p...), 0), append([]byte{0}, p...), []byte{}, append(append([]byte{}, p...), p...),
 		append(append([]byte{}, p...), ' '), append(append([]byte{}, p...), '\n'),
-		bytes.ToUpper(p), bytes.ToLower(p), append(append([]byte{}, p...), 0, 0))
+		bytes.ToUpper(p), bytes.ToLower(p), append(append([]byte{}, p...), 0, 0),
+		append([]byte{' '}, p...), append([]byte{'\t'}, p...), append([]byte{'\n'}, p...), append([]byte{'\r'}, p...),
+		append(append([]byte{}, p...), '\t'), append(append([]byte{}, p...), '\r'), append(append([]byte{}, p...), '\r', '\n'),
+		append(append([]byte{' '}, p...), ' '), append(append([]byte{}, p...), 0xc2, 0xa0), append(append([]byte{}, p...), 0x0b), append(append([]byte{}, p...), 0x0c),
+		append(append([]byte{}, p...), 0x85), bytes.TrimSpace(p), bytes.TrimLeft(p, " \t\r\n"), bytes.TrimRight(p, " \t\r\n"))
+	for i := 1; i < len(p) && i <= 4; i++ {
+		out = append(out, append([]byte{}, p[i:]...)) // suffixes
+	}
 	var res [][]byte
 	for _, q := range out {
 		if !bytes.Equal(q, p) {
@@ -392,6 +399,58 @@ func (g *gen) mgrCase(watchOnly bool, exhaustiveFlips bool) {
 		ops = append(ops, fmt.Sprintf("mgrunlock pass=%s", hx(miss[0])), "mgrenc kt=0 len=2 pat=2")
 		locked = true
 	}
+	// quirk: the NUL-padded private passphrase is accepted while locked but refused (and locks) while unlocked,
+	// because the unlocked path compares the salted sha512 of the passphrase, not the derived key
+	ops = append(ops, fmt.Sprintf("mgrunlock pass=%s", hx(priv)), fmt.Sprintf("mgrunlock pass=%s00", hx(priv)), "mgrenc kt=0 len=3 pat=3",
+		fmt.Sprintf("mgrunlock pass=%s00", hx(priv)), "mgrenc kt=0 len=3 pat=3")
+	if !watchOnly {
+		locked = false
+		cts = append(cts, ctInfo{nct, 0, 43})
+		nct++
+	}
+	probe()
+	ops = append(ops, fmt.Sprintf("mgrunlock pass=%s", hx(priv)))
+	if !watchOnly {
+		locked = false
+	}
+	probe()
+	// ChangePassphrase (private) while UNLOCKED: the new passphrase must be the one the still-unlocked manager
+	// accepts, the old one must be refused (and locks); then while LOCKED; then the public one.
+	priv2 := append(append([]byte{}, priv...), 'x')
+	priv3 := g.bytes(1 + g.rng.Intn(10))
+	// two Unlock calls guarantee "unlocked, cached hash = hash(priv)" whatever the state was (the first may lock)
+	ops = append(ops, fmt.Sprintf("mgrunlock pass=%s", hx(priv)), fmt.Sprintf("mgrunlock pass=%s", hx(priv)))
+	if len(miss) > 0 {
+		ops = append(ops, fmt.Sprintf("mgrchpass priv=1 old=%s new=%s", hx(miss[0]), hx(priv2)))
+	}
+	ops = append(ops, fmt.Sprintf("mgrchpass priv=1 old=%s new=%s", hx(priv), hx(priv2)),
+		fmt.Sprintf("mgrunlock pass=%s", hx(priv2)), "mgrenc kt=0 len=4 pat=4")
+	if !watchOnly {
+		cts = append(cts, ctInfo{nct, 0, 44})
+		nct++
+	}
+	ops = append(ops, fmt.Sprintf("mgrunlock pass=%s", hx(priv)), "mgrenc kt=0 len=4 pat=4",
+		fmt.Sprintf("mgrunlock pass=%s", hx(priv)), fmt.Sprintf("mgrunlock pass=%s", hx(priv2)))
+	probe()
+	ops = append(ops, "mgrlock", "mgrlock")
+	locked = true
+	if !watchOnly {
+		priv = priv2
+	}
+	ops = append(ops, fmt.Sprintf("mgrchpass priv=1 old=%s new=%s", hx(priv), hx(priv3)),
+		fmt.Sprintf("mgrunlock pass=%s", hx(priv)), fmt.Sprintf("mgrunlock pass=%s", hx(priv3)))
+	if !watchOnly {
+		priv = priv3
+		locked = false
+	}
+	probe()
+	ops = append(ops, "mgrlock")
+	locked = true
+	pub2 := g.bytes(1 + g.rng.Intn(10))
+	ops = append(ops, fmt.Sprintf("mgrchpass priv=0 old=%s00ff new=%s", hx(pub), hx(pub2)),
+		fmt.Sprintf("mgrchpass priv=0 old=%s new=%s", hx(pub), hx(pub2)),
+		fmt.Sprintf("mgropen pub=%s", hx(pub)), fmt.Sprintf("mgropen pub=%s", hx(pub2)))
+	pub = pub2
 	probe()
 	ops = append(ops, fmt.Sprintf("mgrunlock pass=%s", hx(priv)))
 	if !watchOnly {
@@ -440,7 +499,7 @@ func (eng) Generate(rng *rand.Rand, tier string) []core.Case {
 			g.garbageCase(200)
 		}
 	}
-	passes := [][]byte{[]byte("a"), []byte("password"), []byte("Tr0ub4dor&3"), {0}, []byte("p\x00q"), []byte("pässwörd"), []byte(" lead"), g.bytes(24)}
+	passes := [][]byte{[]byte("a"), []byte("password"), []byte("Tr0ub4dor&3"), {0}, []byte("p\x00q"), []byte("pässwörd"), []byte(" lead"), []byte("  hunter2\n"), []byte("trail \r\n"), g.bytes(24)}
 	for _, p := range passes {
 		g.passCase(p, true)
 	}
@@ -507,6 +566,8 @@ type runner struct {
 	mgrPriv []byte
 	mgrPub  []byte
 	mgrN    int
+	// passphrase that last unlocked the manager (nil when locked)
+	mgrUnlockedWith []byte
 	// what each key type of the current manager must be able to open (oracle bookkeeping)
 }
 
@@ -607,9 +668,14 @@ func hmacBlock(p []byte) [64]byte {
 	return b
 }
 
+// KnownNULKey is the stable key of the defect present in the unchanged tree: DeriveKey (hence Open / Unlock /
+// ChangePassphrase) accepts every passphrase with the same HMAC key block as the creating one — trailing NUL bytes
+// up to 64 bytes, and the sha256 of a longer passphrase.
+const KnownNULKey = "DeriveKey.trailing-NUL-passphrase"
+
 func wrongPassKey(site string, got, want []byte) string {
 	if hmacBlock(got) == hmacBlock(want) {
-		return site + ".hmac-equivalent-pass-accepted"
+		return KnownNULKey
 	}
 	return site + ".wrong-pass-accepted"
 }
@@ -1082,9 +1148,19 @@ func (r *runner) Exec(op string) (string, string) {
 		})
 		lk := b2i(r.mgr.IsLocked())
 		right := bytes.Equal(pass, r.mgrPriv) && !r.mgr.WatchOnly()
+		prevUnlock := r.mgrUnlockedWith
+		if err != nil || r.mgr.IsLocked() {
+			r.mgrUnlockedWith = nil
+		} else {
+			r.mgrUnlockedWith = append([]byte{}, pass...)
+		}
 		if err != nil {
 			v := ""
-			if right {
+			if right && prevUnlock != nil && !bytes.Equal(prevUnlock, pass) && hmacBlock(prevUnlock) == hmacBlock(pass) {
+				// consequence of the known defect: the manager had been unlocked with a NUL-padded variant, whose
+				// salted hash is what the unlocked fast path compares against
+				v = viol(KnownNULKey, fmt.Sprintf("Unlock rejected the private passphrase %x after having accepted %x", pass, prevUnlock))
+			} else if right {
 				v = viol("manager.right-pass-rejected", "Unlock rejected the private passphrase: "+err.Error())
 			} else if !r.mgr.IsLocked() && !r.mgr.WatchOnly() {
 				v = viol("manager.unlocked-after-failed-unlock", "manager unlocked after a failed Unlock")
@@ -1104,7 +1180,47 @@ func (r *runner) Exec(op string) (string, string) {
 		if err := r.mgr.Lock(); err != nil {
 			return mgrErrKind(err), ""
 		}
+		r.mgrUnlockedWith = nil
 		return "ok", ""
+
+	case "mgrchpass":
+		pv, ok1 := atoi(kv, "priv")
+		oldP, ok2 := ahex(kv, "old")
+		newP, ok3 := ahex(kv, "new")
+		if !ok1 || !ok2 || !ok3 || pv > 1 || r.mgr == nil {
+			return "bad-op", ""
+		}
+		var err error
+		_ = walletdb.Update(r.db, func(tx walletdb.ReadWriteTx) error {
+			err = r.mgr.ChangePassphrase(tx.ReadWriteBucket(nsKey), append([]byte{}, oldP...), append([]byte{}, newP...), pv == 1,
+				&waddrmgr.FastScryptOptions)
+			return err
+		})
+		cur := r.mgrPub
+		if pv == 1 {
+			cur = r.mgrPriv
+		}
+		right := bytes.Equal(oldP, cur) && !(pv == 1 && r.mgr.WatchOnly())
+		if err != nil {
+			v := ""
+			if right {
+				v = viol("manager.right-pass-rejected", "ChangePassphrase rejected the current passphrase: "+err.Error())
+			}
+			return mgrErrKind(err), v
+		}
+		v := ""
+		if !right {
+			v = viol(wrongPassKey("manager.changepass", oldP, cur), fmt.Sprintf("ChangePassphrase accepted %x as the current passphrase %x", oldP, cur))
+		}
+		if pv == 1 {
+			r.mgrPriv = append([]byte{}, newP...)
+			if r.mgrUnlockedWith != nil {
+				r.mgrUnlockedWith = append([]byte{}, newP...)
+			}
+		} else {
+			r.mgrPub = append([]byte{}, newP...)
+		}
+		return "ok", v
 
 	case "mgrenc":
 		kt, ok1 := atoi(kv, "kt")
@@ -1244,6 +1360,7 @@ func (r *runner) mgrOpen(pub []byte) (string, string) {
 		return mgrErrKind(err), v
 	}
 	r.mgr = m
+	r.mgrUnlockedWith = nil
 	v := ""
 	if !right {
 		v = viol(wrongPassKey("manager.open", pub, r.mgrPub), fmt.Sprintf("Open accepted %x (public passphrase %x)", pub, r.mgrPub))
